@@ -47,6 +47,18 @@ static scpi_result_t c01_pusherr(scpi_t * context) {
     return SCPI_RES_OK;
 }
 
+/* a handler that announces a response block whose size comes from its parameter (a waveform dump streamed in windows):
+ * every length a uint32_t parameter can carry reaches SCPI_ResultArbitraryBlockHeader, first in the response or behind another item */
+static scpi_result_t c01_announce(scpi_t * context) {
+    static const uint32_t dflt[8] = { 0u, 9u, 10u, 99999999u, 100000000u, 999999999u, 1000000000u, 4294967295u };
+    uint32_t n = dflt[c01_blob[0] & 7];
+    SCPI_ParamUInt32(context, &n, FALSE);
+    if (c01_blob[1] & 1) SCPI_ResultInt32(context, 7);
+    SCPI_ResultArbitraryBlockHeader(context, n);
+    SCPI_ResultArbitraryBlockData(context, c01_blob, n < 8 ? n : 8);
+    return SCPI_RES_OK;
+}
+
 static const scpi_command_t c01_cmds[] = {
     { "*CLS", SCPI_CoreCls, 0 }, { "*ESE", SCPI_CoreEse, 0 }, { "*ESE?", SCPI_CoreEseQ, 0 }, { "*ESR?", SCPI_CoreEsrQ, 0 }, { "*IDN?", SCPI_CoreIdnQ, 0 },
     { "*OPC", SCPI_CoreOpc, 0 }, { "*OPC?", SCPI_CoreOpcQ, 0 }, { "*RST", SCPI_CoreRst, 0 }, { "*SRE", SCPI_CoreSre, 0 }, { "*SRE?", SCPI_CoreSreQ, 0 },
@@ -56,7 +68,7 @@ static const scpi_command_t c01_cmds[] = {
     { "STATus:OPERation[:EVENt]?", SCPI_StatusOperationEventQ, 0 }, { "STATus:OPERation:ENABle", SCPI_StatusOperationEnable, 0 }, { "STATus:PRESet", SCPI_StatusPreset, 0 },
     { "A", vh_handler, 1 }, { "B?", vh_handler, 2 }, { "TEST#:VALue#[:SUB#]", vh_handler, 3 }, { "[:MEASure]:VOLTage[:DC]?", vh_handler, 4 }, { "CONFigure:TEXT", vh_handler, 5 },
     { "DATA:BLOCk", vh_handler, 6 }, { "DATA:ARRay?", vh_handler, 7 }, { "ROUTe:CLOSe", vh_handler, 8 }, { "X", vh_handler, 9 }, { "Y?", vh_handler, 10 }, { "Z", vh_handler, 11 }, { "W?", vh_handler, 12 },
-    { "TEST:MISC?", c01_misc, 0 }, { "TEST#:MISC[:X#]?", c01_misc, 0 }, { "SYSTem:PUSHerror", c01_pusherr, 0 },
+    { "TEST:MISC?", c01_misc, 0 }, { "TEST#:MISC[:X#]?", c01_misc, 0 }, { "SYSTem:PUSHerror", c01_pusherr, 0 }, { "DATA:ANNounce?", c01_announce, 0 },
     SCPI_CMD_LIST_END
 };
 
@@ -92,6 +104,14 @@ static const char * c01_execute(const unsigned char * stream, size_t n, const c0
     v = vh_ctx_new(c01_cmds, cfg->bufsize < 2 ? 2 : cfg->bufsize, cfg->queue_len < 1 ? 1 : cfg->queue_len, cfg->heap_len < 2 ? 2 : cfg->heap_len);
     v->sigs = c01_sigs; v->nsigs = C01_NSIG; v->log_enabled = 0;
     vh_rng_seed(&r, cfg->seg_seed, 78, 0);
+    /* every callback but write is optional for the application */
+    if (vh_below(&r, 4) == 0) {
+        uint32_t m = vh_below(&r, 16);
+        if (m & 1) v->iface.error = NULL;
+        if (m & 2) v->iface.control = NULL;
+        if (m & 4) v->iface.flush = NULL;
+        if (m & 8) v->iface.reset = NULL;
+    }
     if (cfg->mode == 3) {
         /* complete NUL-terminated line handed straight to the line parser; exact-size allocation so that strtol/strtod over-reads trap */
         size_t L = n; char * line = (char *) malloc(L + 1);
